@@ -802,11 +802,12 @@ func Build(p Prog, seed int64, failSlot int, failWhen string, tmpdir string) (*B
 		fresh.SetDateWithValue(time.Date(2024, 5, 17, 10, 11, 12, 0, time.UTC))
 		fresh.SetMessageIDWithValue("verif.mime@from.test")
 		fresh.Subject("render scenario")
-		if err := runCalls(fresh, p.Calls, rng); err != nil {
+		cur, err := runCalls(fresh, p.Calls, rng, opts)
+		if err != nil {
 			return nil, err
 		}
-		m = fresh
-		b.Msg = fresh
+		m = cur
+		b.Msg = cur
 	}
 	if p.Mw != "" {
 		m = attachMiddleware(m, p.Mw)
@@ -883,7 +884,7 @@ func attachMiddleware(m *mail.Msg, kind string) *mail.Msg {
 
 // runCalls executes the builder calls of MsgCalls.tla on m (after removing what the list-based
 // construction put there). The leaf created by call k carries content class and name "id<k>".
-func runCalls(m *mail.Msg, calls []string, rng *rand.Rand) error {
+func runCalls(m *mail.Msg, calls []string, rng *rand.Rand, opts []mail.MsgOption) (*mail.Msg, error) {
 	for i, c := range calls {
 		cls := fmt.Sprintf("id%d", i+1)
 		switch c {
@@ -928,11 +929,31 @@ func runCalls(m *mail.Msg, calls []string, rng *rand.Rand) error {
 				r[len(a)-1-j] = a[j]
 			}
 			m.SetAttachments(r)
+		case "Handover":
+			// another message takes over the files; the first one is reset and filled again (a Msg reused in a loop)
+			other := mail.NewMsg(opts...)
+			if err := other.From("sender@from.test"); err != nil {
+				return nil, err
+			}
+			if err := other.To("rcpt@to.test"); err != nil {
+				return nil, err
+			}
+			other.SetDateWithValue(time.Date(2024, 5, 17, 10, 11, 12, 0, time.UTC))
+			other.SetMessageIDWithValue("verif.mime@from.test")
+			other.Subject("render scenario")
+			other.SetAttachments(m.GetAttachments())
+			other.SetEmbeds(m.GetEmbeds())
+			m.Reset()
+			for k := 0; k < 3; k++ {
+				m.AttachReadSeeker(fmt.Sprintf("refill-%d.bin", k), bytes.NewReader([]byte("content of the refilled first message")))
+				m.EmbedReadSeeker(fmt.Sprintf("refill-%d.png", k), bytes.NewReader([]byte("content of the refilled first message")))
+			}
+			m = other
 		default:
-			return fmt.Errorf("unknown builder call %q", c)
+			return nil, fmt.Errorf("unknown builder call %q", c)
 		}
 	}
-	return nil
+	return m, nil
 }
 
 // ---------------------------------------------------------------------------
